@@ -1,6 +1,8 @@
 import CnlDriver.CS
 import CnlModel.Static
 import CnlSpec.Rounding
+import CnlModel.RoundCvt
+import CnlDriver.FloatIO
 /-! `C11` table: static_number operations and short histories. -/
 namespace Cnl.Drv
 open Cnl Cnl.Static
@@ -125,6 +127,50 @@ def checkC11 (toks : List String) (res : String) : Option Verdict :=
     let ideal := idealCvt mode tag d3 e3 (.val e1 a)
     some { model := showRes showSN m, spec := judge tag ideal d3 res, cls := c11CvtClass mode d1 e1 e3 a,
            branch := "cvt/" ++ toks[1]! ++ (if e3 > e1 then "/round" else "/exact") }
+  | ["fcvt", mode, tag, d, e, fm, x] => do
+    -- static_number<D,E>{floating}: scale by 2^-E in the floating type, overflow test on the scaled
+    -- floating value against the declared limits, then the rounding conversion into the storage
+    let mode ← parseRdMode mode; let tag ← parseOvTag tag; let d ← d.toNat?; let e ← e.toInt?
+    let f ← FloatIO.parseFmt fm; let x ← Fmt.ofHex? f x
+    let q := f.mul x (ScaledFloat.powerValueF f 2 (-e))
+    let hi : Int := 2^d - 1
+    let c : Cfg := ⟨mode, tag⟩
+    let m : Res SNum :=
+      if fCmp .gt q (f.ofInt hi) then (narrowDigits c d (hi + 1)).map (fun v => ⟨d, e, v⟩)
+      else if fCmp .lt q (f.ofInt (-hi)) then (narrowDigits c d (-hi - 1)).map (fun v => ⟨d, e, v⟩)
+      else
+        match Elastic.repTy d narrowest with
+        | none => .ill "digits exceed the widest integer"
+        | some rep => (RoundCvt.floatToInt mode f rep q).map (fun v => ⟨d, e, v⟩)
+    -- ideal: the exact value rounded by the mode, then the overflow reaction
+    let ideal : Ideal := match x.toRat? with
+      | none => .undef
+      | some r =>
+        let scaled : Rat := r * (if e ≤ 0 then ((2 : Rat) ^ (-e).toNat) else 1 / ((2 : Rat) ^ e.toNat))
+        let w : Int := match mode with
+          | .ninf => scaled.floor
+          | .nat => if scaled < 0 then -((-scaled).floor) else scaled.floor
+          | .tpi => (scaled + (1/2 : Rat)).floor
+          | .nrst => if scaled < 0 then -((-scaled + (1/2 : Rat)).floor) else (scaled + (1/2 : Rat)).floor
+        idealCvt mode tag d e (.val e w)
+    -- defect classes inherited from the layers below
+    let addInexact (g : Fmt) (a b : FVal) : Bool := match a.toRat?, b.toRat?, (g.add a b).toRat? with
+      | some p, some r, some t => p + r != t
+      | _, _, _ => false
+    let halfF := f.ofDyadic false 1 (-1)
+    let halfL := x87ext.ofDyadic false 1 (-1)
+    let flagged := fCmp .gt q (f.ofInt hi) || fCmp .lt q (f.ofInt (-hi))
+    let idealSignals := match x.toRat? with
+      | some r =>
+        let scaled : Rat := r * (if e ≤ 0 then ((2 : Rat) ^ (-e).toNat) else 1 / ((2 : Rat) ^ e.toNat))
+        scaled ≥ ((hi : Rat) + (1/2 : Rat)) || scaled ≤ -((hi : Rat) + (1/2 : Rat)) || scaled > (hi : Rat) || scaled < -(hi : Rat)
+      | none => false
+    let cls :=
+      if !flagged && idealSignals then "C11.float_at_limit_not_flagged"
+      else if mode == .tpi && addInexact f q halfF then "C11.float_rounding_inherits_C09"
+      else if mode == .nrst && addInexact x87ext (x87ext.cvt q) (if fCmp .ge q (f.ofInt 0) then halfL else halfL.neg) then "C11.float_rounding_inherits_C09"
+      else ""
+    some { model := showRes showSN m, spec := judge tag ideal d res, cls := cls, branch := "fcvt/" ++ toks[1]! ++ "/" ++ fm, nontrivial := true }
   | ["chain", mode, tag, kind, d1, e1, d2, e2, d3, e3, a, b] => do
     let mode ← parseRdMode mode; let tag ← parseOvTag tag
     let d1 ← d1.toNat?; let e1 ← e1.toInt?; let d2 ← d2.toNat?; let e2 ← e2.toInt?; let d3 ← d3.toNat?; let e3 ← e3.toInt?
